@@ -16,7 +16,9 @@ import (
 
 	"harness/engine"
 
+	"github.com/virus-evolution/gofasta/pkg/alphabet"
 	"github.com/virus-evolution/gofasta/pkg/closest"
+	"github.com/virus-evolution/gofasta/pkg/fastaio"
 	"github.com/virus-evolution/gofasta/pkg/sam"
 	"github.com/virus-evolution/gofasta/pkg/snps"
 	"github.com/virus-evolution/gofasta/pkg/updown"
@@ -173,9 +175,70 @@ func (c *Call) Run(out io.Writer) error {
 			return closest.ClosestN(c.N, d, strings.NewReader(c.Query), strings.NewReader(c.Target), m, out, c.Table, c.Threads)
 		}
 		return closest.Closest(strings.NewReader(c.Query), strings.NewReader(c.Target), m, out, c.Threads)
+	case "libconc":
+		// the nucleotide-table library functions used from c.Threads goroutines at once (each on its own
+		// whitespace-separated sequence of c.Query); results in goroutine-index order
+		seqs := strings.Fields(c.Query)
+		res := make([]string, len(seqs))
+		done := make(chan int, len(seqs))
+		for i := range seqs {
+			i := i
+			zzvs.Go(func() {
+				res[i] = libUse(seqs[i])
+				zzvs.PreSend(done, "libconc")
+				done <- i
+			}, "libconc")
+		}
+		for range seqs {
+			zzvs.Recv(done, "libconc")
+		}
+		io.WriteString(out, strings.Join(res, "\n")+"\n")
+		return nil
 	}
 	engine.EngineError("unknown command %q", c.Cmd)
 	return nil
+}
+
+// libUse exercises complement / reverse complement (text and encoded forms) and translation of one sequence.
+func libUse(seq string) string {
+	fr := fastaio.FastaRecord{ID: "x", Description: "x", Seq: seq}
+	e := fr.Encode()
+	aa, err := alphabet.Translate(seq[:len(seq)/3*3], false)
+	es := ""
+	if err != nil {
+		es = err.Error()
+	}
+	return strings.Join([]string{fr.Complement().Seq, fr.ReverseComplement().Seq, e.Complement().Decode().Seq, e.ReverseComplement().Decode().Seq,
+		e.ReverseComplement().ReverseComplement().Decode().Seq, aa, es}, " ")
+}
+
+// libUseModel is what libUse must return, from the reference tables of ref_iupac.go.
+func libUseModel(seq string) string {
+	comp := []byte(seq)
+	for i := range comp {
+		comp[i] = c17Comp(comp[i])
+	}
+	up := strings.ToUpper(seq)
+	ucomp := []byte(up)
+	for i := range ucomp {
+		ucomp[i] = c17Comp(ucomp[i])
+	}
+	rev := func(b []byte) string {
+		o := make([]byte, len(b))
+		for i := range b {
+			o[len(b)-1-i] = b[i]
+		}
+		return string(o)
+	}
+	aa := ""
+	for i := 0; i+3 <= len(up); i += 3 {
+		a := translateAmbig(up[i : i+3])
+		if a == 0 {
+			a = 'X'
+		}
+		aa += string(a)
+	}
+	return strings.Join([]string{string(comp), rev(comp), string(ucomp), rev(ucomp), up, aa, ""}, " ")
 }
 
 func renderDir(dir string) string {
